@@ -199,8 +199,60 @@ def run(ctx, report):
     from .c02 import accumulate_rule
     accumulate_rule(R3, ctx.mod('ia32_att'), ctx.mod('parse_ad'))
 
+    # ------------------------------------------------------------ D4 Intel <-> AT&T transliteration
+    R4 = report.rule('C19.D4', 'both parsers give a shared register name the same operand size; every condition-code alias is read back from AT&T as itself', floor=80)
+    from .c03 import lexicon
+    from ..archinterp import arch_interp
+    from ..lifter import LiftError, LiftUnknown
+    X, I = arch_interp(ctx)
+    afs = X.afs
+    pa, pregs, psegs = lexicon(ctx, 'parse_ad', afs)
+    att, aregs, asegs = lexicon(ctx, 'ia32_att', afs)
+    # which table the operand production reads: `registers[reg]` in both grammars
+    for name in sorted(n for n in set(aregs) & (set(pregs) | set(psegs)) if isinstance(n, str)):
+        isz = pregs.get(name, psegs.get(name))
+        if aregs[name] == isz:
+            R4.ok('size:%s' % name, sample='%%%s and %s: %s' % (name, name, isz))
+        else:
+            R4.violation('size:%s' % name, 'lexicon-size:%s' % name, 'register %s gets operand size %s from the AT&T lexicon and %s from the Intel lexicon'
+                         % (name, aregs[name], isz), where(att, att.assigns['registers'][-1]) if 'registers' in att.assigns else '',
+                         witness="asm_att('movl %%eax, %%%s') vs asm('mov %s, eax')" % (name, name))
+    fa = I.g.get('mnemo_from_att')
+    if fa is None:
+        raise AnalysisError('mnemo_from_att not found')
+
+    def reg(n, sz):
+        return {afs.ad: False, afs.size: sz, n: 1}
+    n_cc = 0
+    for name in sorted(n for n in X.lookup if isinstance(n, str)):
+        if name.startswith('cmov'):
+            variants = [(name, afs.u32), (name + 'l', afs.u32), (name + 'w', afs.u16)]
+            args = lambda sz: [reg(1, sz), reg(2, sz)]
+        elif name.startswith('set'):
+            variants = [(name, afs.u08)]
+            args = lambda sz: [reg(1, sz)]
+        else:
+            continue
+        n_cc += 1
+        for spelled, sz in variants:
+            try:
+                r = I.run(fa, [[], spelled, args(sz), 'att_syntax'])
+            except LiftUnknown as e:
+                raise AnalysisError('mnemo_from_att outside the modelled subset on %r: %s' % (spelled, e))
+            res = r[0][1]
+            got = res.exc if isinstance(res, LiftError) else (res[1] if isinstance(res, tuple) else res)
+            if got == name:
+                R4.ok('cc:%s' % spelled, sample='AT&T %s -> %s' % (spelled, got))
+            else:
+                R4.violation('cc:%s' % spelled, 'cc-alias:%s->%s' % (spelled, got), 'AT&T mnemonic %r (Intel %r, which the Intel assembler accepts) is read as %r'
+                             % (spelled, name, got), where(X.arch, fa.node), witness="asm_att('%s %%ebx, %%eax') vs asm('%s eax, ebx')" % (spelled, name))
+    if n_cc < 40:
+        raise AnalysisError('only %d cmov/set aliases found in the opcode table' % n_cc)
+
 
 MUTANTS = [
+    ('att-sreg-size', 'miasmx/arch/ia32_att.py', "    # same operand size as the Intel parser gives them\n    registers[name] = x86_afs.u32", "    registers[name] = x86_afs.size_seg", 'C19.D4'),
+    ('cmov-strip-l', 'miasmx/arch/ia32_arch.py', "        elif len(name) > 5 and name.endswith('l') \\\n                and not name in x86mndb.mnemo_lookup:", "        elif len(name) > 5 and name.endswith('l'):", 'C19.D4'),
     ('deref3-overwrite', 'miasmx/arch/ia32_att.py', "    t[0][reg] = t[6] + t[0].get(reg, 0)", "    t[0][reg] = t[6]", 'C19.D3'),
     ('intel-reg0-nolower', 'miasmx/core/parse_ad.py',
      "    '''register : REGISTER'''\n    reg = t[1].lower()\n    if reg == 'st': reg = 'st0'\n    t[0] = {x86_afs.reg_dict[reg]:1, x86_afs.size: registers[reg]}",
@@ -210,8 +262,8 @@ MUTANTS = [
      "    reg = t[2].lower()\n    t[0] = {x86_afs.reg_dict[reg]:1, x86_afs.size: registers[reg], 'txt':reg}",
      "    reg = t[2]\n    t[0] = {x86_afs.reg_dict[t[2]]:1, x86_afs.size: registers[reg], 'txt':reg}", 'C19.D1'),
     ('intel-brackets3-nowrap', 'miasmx/core/parse_ad.py',
-     "    t[0] = t[3]\n    t[0][x86_afs.imm] = int(int32(uint32(int(t[1]))))\n",
-     "    t[0] = t[3]\n    t[0][x86_afs.imm] = int(t[1])\n", 'C19.D2'),
+     "    t[0] = t[3]\n    t[0][x86_afs.imm] = t[0].get(x86_afs.imm, 0) + int(int32(uint32(int(t[1]))))\n",
+     "    t[0] = t[3]\n    t[0][x86_afs.imm] = t[0].get(x86_afs.imm, 0) + int(t[1])\n", 'C19.D2'),
     ('intel-tname-case', 'miasmx/core/parse_ad.py',
      "    if t.value.lower() in registers:\n        t.type = 'REGISTER'", "    if t.value in registers:\n        t.type = 'REGISTER'", 'C19.D3'),
     ('att-tname-seg-case', 'miasmx/arch/ia32_att.py',
